@@ -176,5 +176,6 @@ package dhcpd
 //@ func (s *v4Server) ResetLeases(leases []*dhcpsvc.Lease) (err error)
 //@   property C10
 //@   callsites-only
+//@   requires !held(s.leasesLock)
 //@   callsite (*github.com/AdguardTeam/AdGuardHome/internal/dhcpd.v4Server).validHostnameForClient(h, ip) requires dynamic-leases-only: !l.IsStatic
 //@   modifies *
